@@ -37,7 +37,7 @@ FAULT_EXCEPTIONS = {'PeerFault': PeerFault, 'TypeError': TypeError, 'ValueError'
 
 
 class Peer:
-    __slots__ = ('seed', 'style', 'protect', 'log', 'n', 'fail_at', 'fired', 'fail_exc')
+    __slots__ = ('seed', 'style', 'protect', 'log', 'n', 'fail_at', 'fired', 'fail_exc', 'inside')
 
     def __init__(self, spec: dict, protect=()):
         self.seed = spec.get('seed', 0)
@@ -48,6 +48,7 @@ class Peer:
         self.fail_at = None
         self.fired = False
         self.fail_exc = PeerFault
+        self.inside = None
 
     def begin(self, fail_at=None, exc=None):
         self.log = []
@@ -90,7 +91,18 @@ class Peer:
         return ('⟦' + (MARK * 2)[:size] + str(index) + '⟧') if size else ''
 
     def answer_text(self, n, text):
-        if not isinstance(text, str) or has_line_break(text):
+        if not isinstance(text, str):
+            return text
+        if self.inside and self.inside in text and text != self.inside:
+            # a chunk that carries the newline string AND something else. With an empty baseIndent the
+            # library's own newline chunk is exactly the newline string, so whatever else travels with
+            # it (e.g. indentation folded into the same chunk) is ordinary text: this editor rewrites
+            # it like any other text and leaves every newline string alone
+            pieces = text.split(self.inside)
+            if not any(has_line_break(x) for x in pieces):
+                return self.inside.join(self.answer_text(n, x) if x else x for x in pieces)
+            return text
+        if has_line_break(text):
             return text
         for p in self.protect:
             if p in text:
